@@ -128,7 +128,7 @@ def handleTRT : Parser String := do
   expect "=>"
   let implToks ← rest
   let impl := join implToks
-  let model := tTree s cs FUEL
+  let model := tTreeAll s cs FUEL
   let modelS := match model with | some t => sTree sTCons t | none => "F"
   let dis := if modelS != impl then some s!"DISAGREE TREE.table model={modelS} impl={impl}" else none
   let oracle := match pTree pTCons implToks with
